@@ -363,6 +363,7 @@ func contractMentions(fc *FuncContract, prop string) bool {
 	cs := append(append([]Clause{}, fc.Requires...), fc.Ensures...)
 	for _, l := range fc.Loops {
 		cs = append(cs, l.Invariants...)
+		cs = append(cs, l.ReturnEnsures...)
 		if l.Decreases != nil {
 			cs = append(cs, *l.Decreases)
 		}
